@@ -7,16 +7,49 @@ THEOREM_FILES = ["Summer.Props.C05", "Summer.Props.C01Rates", "Summer.Props.C05S
 TASK = "task"
 RULE = ("programs forced to contain infection flows, with 0-3 mixing matrices (static / parameterised / time-varying), optional strain "
         "stratification, infectiousness adjustments, full and partial stratifications; one_step at states with positive category "
-        "populations; non-trivial when the model has >= 2 mixing categories or >= 2 strains or an infectiousness adjustment")
+        "populations; plus fixed-step trajectories (and raw infection-flow outputs) of death-free models with importation and several mixing categories; non-trivial when the model has >= 2 mixing categories or >= 2 strains or an infectiousness adjustment")
 TRUSTED = ["Spec.foi in lean/Summer/Spec/FOI.lean is the reading of the property's force-of-infection formula",
            "the strain stratification is named 'strain' (the backend looks the stratum up under that literal key)"]
 ASSUMPTIONS = ["states have positive category populations (the property's quantifier)", "float rounding not modelled (1e-9 relative)"]
 
 def payloads(tier, seed):
     n = 70 if tier == "quick" else 1500
-    return [{"seed": seed, "index": i} for i in range(n)]
+    return [{"seed": seed, "index": i} for i in range(n)] + [{"seed": seed, "index": i, "mode": "traj"} for i in range(20 if tier == "quick" else 400)]
+
+
+def traj_task(W, payload):
+    """the force of infection ALONG A RUN (the category populations and infectious populations of the CURRENT state at every step): models
+    without deaths whose population changes through importation / transitions only, several mixing categories; euler and rk4 trajectories
+    and the raw infection-flow outputs compared with the model (fixed-step trajectories are prescribed: C07.euler_rows / rk4_rows)"""
+    r = random.Random(f"C05t:{payload['seed']}:{payload['index']}")
+    prog = Gen(r, Opts(force_infection=True, max_strats=2, force_strat=True, allow_computed=False, n_requests=0, allow_requests=True,
+                       kinds=["transition", "infection", "infection", "import", "import"], allow_age=False, small_dt=True,
+                       mixing_pair_bias=0.3, allow_post_flows=False)).program()
+    names = sorted(set(op["name"] for op in prog["build"] if op["op"] == "flow" and op["kind"] in ("inf_freq", "inf_dens")))
+    for i, nm in enumerate(names[:3]):
+        prog["build"].append({"op": "request", "name": f"inf_raw_{i}", "kind": "flow", "flow": nm, "raw": True, "save": True})
+    S = fresh_session(W)
+    out = mk_out(prog)
+    bump(out, "mode:trajectory")
+    if not S.build(prog["build"]):
+        bump(out, "build_rejected")
+        return out
+    d = S.dump()
+    ncat = len(d["mixing_cats"]) if d else 1
+    bump(out, f"traj_categories:{ncat}")
+    h = prog_hash(prog["build"])
+    for solver in ("euler", "rk4"):
+        before = len(S.log)
+        py, ln = S.run(prog["params"], solver, tol=1e-9, stages=("S7", "S8"))
+        out["evals"] += 1
+        if py.get("ok") and ncat >= 2:
+            out["cases"].append(h + ":traj:" + solver)
+        tag_diffs(out, S, before, "c05", payload, prog, ("S7", "S8"))
+    return out
 
 def task(W, payload):
+    if payload.get("mode") == "traj":
+        return traj_task(W, payload)
     r = random.Random(f"C05:{payload['seed']}:{payload['index']}")
     prog = Gen(r, Opts(force_infection=True, max_strats=3, force_strat=True, allow_requests=False, allow_computed=False,
                        kinds=["transition", "death", "infection", "infection", "import"])).program()
